@@ -68,20 +68,90 @@ func Bubble(t *testing.T, fn func()) (deadlock string, stacks string) {
 	return "", ""
 }
 
-// RueidisFrames extracts, from a goroutine dump, the goroutines that are parked inside rueidis code
-// (a frame under /repo), one summary line each: the innermost /repo frame.
+// RueidisFrames extracts, from a goroutine dump, the goroutines that are inside rueidis code, one summary line
+// each: the innermost rueidis function and its position (works for /repo and for scratch copies).
 func RueidisFrames(stacks string) []string {
 	var out []string
 	for _, g := range strings.Split(stacks, "\n\n") {
 		lines := strings.Split(g, "\n")
 		for i, l := range lines {
-			if strings.HasPrefix(strings.TrimSpace(l), "/repo/") && i > 0 {
-				out = append(out, strings.TrimSpace(lines[i-1])+" @ "+strings.TrimSpace(l))
+			if strings.HasPrefix(l, "github.com/redis/rueidis") && i+1 < len(lines) {
+				fn := l
+				if j := strings.LastIndexByte(fn, '('); j > 0 {
+					fn = fn[:j]
+				}
+				pos := strings.TrimSpace(lines[i+1])
+				if j := strings.IndexByte(pos, ' '); j > 0 {
+					pos = pos[:j]
+				}
+				if j := strings.LastIndexByte(pos, '/'); j >= 0 {
+					pos = pos[j+1:]
+				}
+				out = append(out, fn+" @ "+pos)
 				break
 			}
 		}
 	}
 	return out
+}
+
+// BubbleRT is Bubble with a real-time inspection trigger for code that busy-waits. A goroutine that spins (rueidis's
+// connection teardown polls with runtime.Gosched until every caller is gone) is always runnable, so virtual time can
+// never advance and neither synctest's deadlock detector nor the virtual-time guard can fire. When the bubble has not
+// finished after limit of REAL time, three goroutine dumps are taken one second apart; if the same goroutines of this
+// bubble are running/runnable inside rueidis in all of them while the bubble's main goroutine sits in a virtual sleep,
+// their frames are returned in frozen: the verdict rests on that observed structure, the wall clock only triggers the
+// inspection. The bubble is then abandoned (it cannot be cancelled).
+func BubbleRT(t *testing.T, limit time.Duration, fn func()) (deadlock, stacks string, frozen []string) {
+	type res struct{ dl, st string }
+	done := make(chan res, 1)
+	go func() {
+		dl, st := Bubble(t, fn)
+		done <- res{dl, st}
+	}()
+	select {
+	case r := <-done:
+		return r.dl, r.st, nil
+	case <-time.After(limit):
+	}
+	var common map[string]int
+	var last string
+	for i := 0; i < 3; i++ {
+		buf := make([]byte, 8<<20)
+		buf = buf[:runtime.Stack(buf, true)]
+		last = string(buf)
+		cur := map[string]int{}
+		for _, g := range strings.Split(last, "\n\n") {
+			head, _, _ := strings.Cut(g, "\n")
+			if !strings.Contains(head, "synctest bubble") || !(strings.Contains(head, "[running") || strings.Contains(head, "[runnable")) {
+				continue
+			}
+			for _, f := range RueidisFrames(g) {
+				cur[f]++
+			}
+		}
+		if common == nil {
+			common = cur
+		} else {
+			for f := range common {
+				if cur[f] == 0 {
+					delete(common, f)
+				}
+			}
+		}
+		select {
+		case r := <-done:
+			return r.dl, r.st, nil
+		case <-time.After(time.Second):
+		}
+	}
+	for f := range common {
+		frozen = append(frozen, f)
+	}
+	if len(frozen) == 0 {
+		frozen = []string{"(no rueidis goroutine was runnable in all samples)"}
+	}
+	return "", last, frozen
 }
 
 func bubbleID(g string) int {
